@@ -77,7 +77,9 @@ where
     }
 
     fn increase_limit(&mut self, dir: Dir, val: u64) {
-        assert!(val <= MAX_STREAMS_LIMIT);
+        // A peer may grant up to 2^60 streams (RFC 9000 section 4.6); stream indices end at
+        // MAX_STREAMS_LIMIT, so anything above cannot be used anyway.
+        let val = val.min(MAX_STREAMS_LIMIT);
         let max_streams = &mut self.max[dir as usize];
         // RFC9000: MAX_STREAMS frames that do not increase the stream limit MUST be ignored.
         if *max_streams < val {
